@@ -34,6 +34,16 @@ func init() {
 	for _, p := range []string{"C01", "C02", "C03", "C04", "C06", "C07", "C09", "C10", "C11"} {
 		specs[p] = propSpec{World: "ipam", Level: "exploration", Quick: 25, Thorough: 600, Rule: ruleW1, Assume: assumeW1}
 	}
+	// layer-1 linearizability check of the allocation core (DESIGN §2.8): a quarter of the workers
+	for _, p := range []string{"C01", "C09"} {
+		sp := specs[p]
+		sp.More = []string{"ipam", "ipam", "ipaml1"}
+		sp.Rule += " A quarter of the workers run the layer-1 world instead: 2-4 simulated clients drive the real crdIpam directly (allocate any/specific/with key, " +
+			"reserve, update, release, reads, reload), the invoke/return history stamped with scheduler steps is checked with porcupine against a nondeterministic " +
+			"sequential map model (counters l1.histories / l1.ok / l1.illegal / l1.unknown)."
+		specs[p] = sp
+	}
+	realVsStub["ipaml1"] = map[string]string{"real": "pkg/ipam/floatingip (crdIpam, store_crd, pool configuration)", "stub": "FloatingIP API objects (simkube)", "not_run": "everything else"}
 	for _, p := range []string{"C05", "C08"} {
 		specs[p] = propSpec{World: "ipam", Level: "fault_enumeration", Quick: 25, Thorough: 600, Rule: ruleEnum, Assume: assumeW1}
 	}
